@@ -123,6 +123,8 @@ def build_extractor_config(flavour, cfg, files, units):
 MOD_PRELUDE = ('#[allow(unused_imports)] use vstd::prelude::*;\n'
                '#[allow(unused_imports)] use crate::spec::*;\n'
                '#[allow(unused_imports)] use crate::shims::World;\n'
+               '#[allow(unused_imports)] use crate::shims::iter::IntoIterShim;\n'
+               '#[allow(unused_imports)] use crate::shims::strs::SplitShim;\n'
                'broadcast use {crate::spec::group_spec_axioms, crate::shims::ssri::group_ssri_axioms};\n')
 
 
@@ -316,6 +318,8 @@ def classify(res, meta, gen_name):
     if vr.get('encountered-vir-error'):
         msgs = [d.get('rendered') or d.get('message') for d in errors][:5]
         raise Undecided('verus rejected the generated file:\n' + '\n'.join(m or '' for m in msgs))
+    if vr.get('encountered-error') and not errors:
+        raise Undecided('verus failed without a diagnostic (internal error?):\n' + '\n'.join(res['raw_err'][:12]))
     # rustc-level compile errors (type errors) show up as errors with a code and no verification stats
     verified = vr.get('verified', 0)
     failed = {}   # label or unit.body -> [diag]
